@@ -397,6 +397,84 @@ def generate(rng, tier):
                 fld["vals"] = [S(F(rng.randint(0, 50), 8)) for _ in fld["vals"]]
                 steps.append(step("lightness", fld, clim=list(shared["clim"]), colorwheel=rng.random() < 0.5))
         cases.append(dict(kind="seq", steps=steps, shared=shared, share_ax=rng.random() < 0.7, share_field=False))
+    # ---- used, then changed in place, then used again (same field object)
+    def gen_edit(nv, lightness_scalar):
+        mask = [rng.random() < 0.6 for _t in range(64)]
+        ops = ["valid_item", "valid_item", "valid_item", "valid_slice", "valid_slice", "valid_fill", "valid_iand",
+               "valid_ior", "valid_iand_attr", "valid_not", "valid_not", "valid_set", "array_item", "array_norm",
+               "translate", "scale", "rotate90"]
+        if not lightness_scalar:
+            ops.append("array_scale")
+        op = rng.choice(ops)
+        e = dict(op=op)
+        if op in ("valid_item", "array_item", "array_norm"):
+            e.update(i=rng.randrange(8), j=rng.randrange(8))
+        if op in ("valid_item", "valid_slice", "valid_fill"):
+            e["val"] = rng.random() < 0.4
+        if op == "valid_slice":
+            e.update(axis=rng.randrange(2), k=rng.randrange(8))
+        if op in ("valid_iand", "valid_ior", "valid_iand_attr", "valid_set"):
+            e["mask"] = mask
+        if op == "array_item":
+            e["vals"] = ([S(F(rng.randint(0, 50), 8))] if lightness_scalar else
+                         [S(rng.choice([F(rng.randint(-40, 40), 8), F(0), F(1e-9), F(-1e-8)])) for _t in range(3)])
+        if op == "array_scale":
+            e["s"] = S(rng.choice([F(2), F(-1), F(1, 4), F(0)]))
+        if op == "translate":
+            e["v"] = [S(F(rng.randint(-8, 8), 4)), S(F(rng.randint(-8, 8), 4))]
+        if op == "scale":
+            e["s"] = S(rng.choice([F(2), F(1, 2), F(4), F(1000), F(1, 1024)]))
+        if op == "rotate90":
+            e["k"] = rng.choice([1, 1, 2, 3])
+        return e
+
+    for _ in range(44 * N):
+        nv = rng.choice([1, 1, 3, 3, 2])
+        if nv == 1:
+            fld = gen_field(rng, tier, nvdim=1, nmax=4)
+            fld["n"] = [max(2, k) for k in fld["n"]]
+            tot = fld["n"][0] * fld["n"][1]
+            fld["vals"] = [S(F(rng.randint(0, 50), 8)) for _t in range(tot)]      # hue angles in [0, 2 pi)
+            kinds = ["scalar", "contour", "lightness", "call"]
+        else:
+            fld = complete_vector_field(nv)
+            if max(fld["n"]) > 4:
+                fld["n"] = [min(4, k) for k in fld["n"]]
+                fld["vals"] = gen_values(rng, fld["n"], nv, "dyadic")
+            tot = fld["n"][0] * fld["n"][1]
+            kinds = ["vector", "lightness", "call"]
+        fld["valid"] = [rng.random() < 0.75 for _t in range(tot)]
+        rng.shuffle(kinds)
+        kinds = kinds[:rng.choice([1, 2, 2])]
+        mu = rng.choice([None, None, gen_mult(rng, fld)])
+        if mu is not None and mu[0] == "other":
+            mu = None
+        plots = []
+        for kd in kinds:
+            kw = dict(mult=mu)
+            if kd == "vector":
+                kw.update(use_color=rng.random() < 0.6)
+            plots.append(step(kd, fld, **kw))
+        for pl in plots:
+            del pl["field"]
+        from3d = {"nz": rng.choice([1, 2, 3])} if rng.random() < 0.25 else None
+        stages = [dict(edits=None, plots=plots)]
+        c_ = rng.random()
+        if c_ < 0.12:
+            stages.append(dict(edits=None, plots=plots))                    # twice, unchanged
+        nst = rng.choice([1, 2, 2])
+        last = None
+        for _s in range(nst):
+            if from3d and rng.random() < 0.4:
+                e = dict(op="parent_valid_item", i=rng.randrange(8), j=rng.randrange(8), val=rng.random() < 0.3)
+            elif last is not None and last["op"] in ("valid_item", "valid_slice", "valid_fill") and rng.random() < 0.6:
+                e = dict(last, val=not last["val"])                        # the reverse: valid again / invalid again
+            else:
+                e = gen_edit(nv, nv == 1 and "lightness" in kinds)
+            last = e
+            edits = [e] + ([gen_edit(nv, nv == 1 and "lightness" in kinds)] if rng.random() < 0.2 else [])
+            stages.append(dict(edits=edits, plots=plots))
+        cases.append(dict(kind="mutseq", field=fld, from3d=from3d, stages=stages))
     return cases
 
 
@@ -590,7 +668,127 @@ def arg_snapshot(x):
     return repr(x)
 
 
+def field_dict_from(f, exact):
+    """the state the field object reports NOW, in the form of a generated field description"""
+    r = f.mesh.region
+    return dict(exact=exact, p1=[S(float(x)) for x in r.pmin], p2=[S(float(x)) for x in r.pmax],
+                n=[int(k) for k in f.mesh.n], dims=list(r.dims), units=list(r.units), nvdim=int(f.nvdim),
+                vdims=list(f.vdims) if f.vdims else None,
+                mapping=[[k, v] for k, v in f.vdim_mapping.items()],
+                vals=[S(float(x)) for x in np.asarray(f.array, dtype=float).reshape(-1)],
+                valid=[bool(b) for b in np.asarray(f.valid).reshape(-1)])
+
+
+def cyc(lst, k):
+    return [lst[i % len(lst)] for i in range(k)]
+
+
+def apply_edit(f, e, parent=None):
+    """in-place change of the field through public calls; returns the field to plot afterwards"""
+    op = e["op"]
+    n0, n1 = (int(k) for k in f.mesh.n)
+    if op == "valid_item":
+        f.valid[e["i"] % n0, e["j"] % n1] = e["val"]
+    elif op == "valid_slice":
+        if e["axis"] == 0:
+            f.valid[e["k"] % n0, :] = e["val"]
+        else:
+            f.valid[:, e["k"] % n1] = e["val"]
+    elif op == "valid_fill":
+        f.valid[...] = e["val"]
+    elif op == "valid_iand":
+        v = f.valid
+        v &= np.array(cyc(e["mask"], n0 * n1), dtype=bool).reshape(n0, n1)
+    elif op == "valid_ior":
+        v = f.valid
+        v |= np.array(cyc(e["mask"], n0 * n1), dtype=bool).reshape(n0, n1)
+    elif op == "valid_iand_attr":
+        f.valid &= np.array(cyc(e["mask"], n0 * n1), dtype=bool).reshape(n0, n1)
+    elif op == "valid_not":
+        np.logical_not(f.valid, out=f.valid)
+    elif op == "valid_set":
+        f.valid = np.array(cyc(e["mask"], n0 * n1), dtype=bool).reshape(n0, n1)
+    elif op == "array_item":
+        f.array[e["i"] % n0, e["j"] % n1] = [fl(x) for x in cyc(e["vals"], f.nvdim)]
+    elif op == "array_scale":
+        f.array[...] *= fl(e["s"])
+    elif op == "array_norm":
+        f.array[e["i"] % n0, e["j"] % n1] = 0.0
+        f.array[(e["i"] + 1) % n0, (e["j"] + 1) % n1] = 0.0
+        f.valid = "norm"
+    elif op == "translate":
+        ed = f.mesh.region.edges
+        f.mesh.translate([fl(e["v"][a]) * float(ed[a]) for a in range(2)], inplace=True)
+    elif op == "scale":
+        f.mesh.scale(fl(e["s"]), inplace=True)
+    elif op == "rotate90":
+        d = f.mesh.region.dims
+        f.rotate90(d[0], d[1], k=e.get("k", 1), inplace=True)
+    elif op == "parent_valid_item":
+        # change the 3-d parent in place, then take the plane selection again
+        pn = [int(k) for k in parent.mesh.n]
+        parent.valid[e["i"] % pn[0], e["j"] % pn[1], :] = e["val"]
+        return parent.sel(**{parent.mesh.region.dims[2]: float(parent.mesh.region.center[2])})
+    else:
+        raise ValueError(op)
+    return f
+
+
+def run_mutseq(c):
+    """used, then changed in place, then used again: every picture is modelled on the state the
+    field reports at the time of the call"""
+    fd0 = c["field"]
+    parent = None
+    if c.get("from3d"):
+        # plane selection of a 3-d field (same data in every layer)
+        n3 = c["from3d"]["nz"]
+        lo = [min(fl(a), fl(b)) for a, b in zip(fd0["p1"], fd0["p2"])]
+        hi = [max(fl(a), fl(b)) for a, b in zip(fd0["p1"], fd0["p2"])]
+        third = [d for d in ["x", "y", "z", "a", "b", "w"] if d not in fd0["dims"]][0]
+        region = df.Region(p1=lo + [0.0], p2=hi + [float(n3)], dims=fd0["dims"] + [third], units=fd0["units"] + ["m"])
+        mesh = df.Mesh(region=region, n=fd0["n"] + [n3])
+        arr = np.array([fl(v) for v in fd0["vals"]], dtype=float).reshape(*fd0["n"], 1, fd0["nvdim"])
+        arr = np.repeat(arr, n3, axis=2)
+        valid = np.repeat(np.array(fd0["valid"], dtype=bool).reshape(*fd0["n"], 1), n3, axis=2)
+        mp = None if fd0["mapping"] is None else {k: v for k, v in fd0["mapping"]}
+        parent = df.Field(mesh, nvdim=fd0["nvdim"], value=arr, vdims=fd0["vdims"], vdim_mapping=mp, valid=valid)
+        f = parent.sel(**{third: float(region.center[2])})
+    else:
+        f = build_field(fd0)
+    recs, edits_done = [], []
+    prev_obs = {}
+    for stage in c["stages"]:
+        changed = False
+        for e in stage.get("edits") or []:
+            st_e, res = attempt(lambda e=e: apply_edit(f, e, parent))
+            edits_done.append(f"{e['op']}:{st_e}")
+            if st_e == "ok":
+                f = res
+                changed = True
+        fd_now = field_dict_from(f, fd0["exact"])
+        for t_i, tmpl in enumerate(stage["plots"]):
+            ctx = {"field_obj": f}
+            r = run_step(dict(tmpl, field=fd_now), ctx)
+            if not changed and t_i in prev_obs and prev_obs[t_i] != r["obs"]:
+                r["oracle"] = sorted(set(r["oracle"]) | {"repeated-plot-differs"})
+            prev_obs[t_i] = r["obs"]
+            recs.append(r)
+    plt.close("all")
+    oracle = sorted({cl for r in recs for cl in r["oracle"]})
+    tags = sorted({t for r in recs for t in r["tags"]})
+    if tags and oracle != ["invalid-cell-drawn"]:
+        tags = []
+    return dict(kind="mutseq", case=c, oracle=oracle, tags=tags,
+                obs=dict(status="/".join(r["obs"]["status"] for r in recs), edits=edits_done,
+                         steps=[r["obs"] for r in recs]),
+                coq="[" + "; ".join(r["coq"] for r in recs) + "]",
+                key="mutseq/" + "+".join(edits_done) + "/" + "+".join(r["key"] for r in recs[:2]) + f"/{bool(parent)}",
+                size=sum(r["size"] for r in recs) + 200)
+
+
 def run_case(c):
+    if c["kind"] == "mutseq":
+        return run_mutseq(c)
     if c["kind"] != "seq":
         rec = run_step(c, {})
         if rec["coq"] is not None:
@@ -1062,7 +1260,9 @@ def stats(records):
     out = {}
     for r in records:
         st_ = r["obs"].get("status")
-        k = r["kind"] + ("/ok" if st_ == "ok" else f"/{st_}" if r["kind"] == "seq" else "/refused")
+        k = r["kind"] + ("/ok" if st_ == "ok" else f"/{st_}" if r["kind"] == "seq" else
+                         ("/all-ok" if set(st_.split("/")) == {"ok"} else "/some-refused") if r["kind"] == "mutseq"
+                         else "/refused")
         out[k] = out.get(k, 0) + 1
     out["known_tagged"] = sum(1 for r in records if r["tags"])
     return out
